@@ -75,6 +75,10 @@ pub fn document_o(fmt: u32, order: usize, contours: &[String]) -> String {
     let how = order / 24;
     let order = order % 24;
     let permuted = order != 0 || how != 0;
+    // how == 3: every point of a contour has the SAME coordinates (x = contour index, y = 0): a repeated closing point,
+    // stacked points - legal, and "returned point for point" must still hold
+    let same_xy = how == 3;
+    let how = if same_xy { 0 } else { how };
     let mut s = String::new();
     s.push_str("<?xml version=\"1.0\" encoding=\"UTF-8\"?>\n");
     s.push_str(&format!("<glyph name=\"a\" format=\"{}\">\n<outline>\n", fmt));
@@ -93,7 +97,7 @@ pub fn document_o(fmt: u32, order: usize, contours: &[String]) -> String {
             k += if named { 2 } else { 1 };
             s.push_str("<point");
             let mut groups: [String; 4] = Default::default();
-            groups[0] = format!(" x=\"{}\" y=\"{}\"", ci, pi);
+            groups[0] = format!(" x=\"{}\" y=\"{}\"", ci, if same_xy { 0 } else { pi });
             // an on-curve "line"/"offcurve" distinction is by the `type` attribute; offcurve may be
             // written without the attribute (the default), exercised for every second off-curve
             if !(ch.to_ascii_lowercase() == 'o' && pi % 2 == 1) {
@@ -130,6 +134,7 @@ pub fn observe(fmt: u32, contours: &[String]) -> String {
 }
 
 pub fn observe_o(fmt: u32, order: usize, contours: &[String]) -> String {
+    let same_xy = order / 24 == 3;
     let doc = document_o(fmt, order, contours);
     match guarded(|| Glyph::parse_raw(doc.as_bytes())) {
         Err(_) => "panic".to_string(),
@@ -148,7 +153,7 @@ pub fn observe_o(fmt: u32, order: usize, contours: &[String]) -> String {
                 for (pi, p) in c.points.iter().enumerate() {
                     let l = letter(&p.typ);
                     let l = if p.smooth { l.to_ascii_uppercase() } else { l };
-                    if p.y != pi as f64 || p.x != idx {
+                    if p.y != (if same_xy { 0.0 } else { pi as f64 }) || p.x != idx {
                         s.push('?');
                     } else {
                         s.push(l);
@@ -252,13 +257,19 @@ pub fn gen(tier: &str, seed: u64, out: &mut dyn Write) {
                     }
                 }
                 // values of `type` / `smooth` spelt with character references, in norad's order and in two others
-                for order in [24usize, 48, 24 + 7, 48 + 17] {
+                for order in [24usize, 48, 24 + 7, 48 + 17, 72, 72 + 5] {
                     emit_o(out, 2, order, &[v.clone()]);
                     if len <= 2 {
                         emit_o(out, 1, order, &[v.clone()]);
                     }
                 }
             }
+        });
+    }
+    // stacked points: every sequence of length 5 and 6 with all points on the same coordinates
+    for len in 5..=6 {
+        enumerate(len, &mut |s0| {
+            emit_o(out, 2, 72, &[s0.to_string()]);
         });
     }
     // long off-curve runs around the widths a narrower counter would wrap at (255/256/257, 511/512/513, 1023/1024/1025; the executable oracle is quadratic, so a 16-bit wrap is not reached)
@@ -320,7 +331,7 @@ pub fn gen(tier: &str, seed: u64, out: &mut dyn Write) {
             }
             cs.push(s);
         }
-        let order = if rng.chance(1, 2) { 0 } else { rng.below(24) + 24 * if rng.chance(1, 3) { 1 + rng.below(2) } else { 0 } };
+        let order = if rng.chance(1, 2) { 0 } else { rng.below(24) + 24 * if rng.chance(1, 3) { 1 + rng.below(3) } else { 0 } };
         emit_o(out, if rng.chance(1, 5) { 1 } else { 2 }, order, &cs);
     }
 }
